@@ -318,6 +318,110 @@ func runC02(c *Ctx) {
 	checkContentTypeTables(c, "C02.8", "serverProtocolHandler", "addProtocolRequestHeaders", "requestMeta")
 	checkClassification(c, "C02.8")
 
+	// ---------------------------------------------------------------- C02.10
+	// (defect D23) Whether a request message counts as compressed decides whether it is
+	// compressed again for the target, whose headers announce the negotiated compression for the
+	// whole request.  Every (re)initialisation of a request message therefore takes that flag
+	// from the envelope or from 'the client declared a compression' - never a constant.
+	c.Rule("C02.10", "a request message's compressed flag comes from its envelope or from the client's declared compression", 2)
+	{
+		msgPT := types.NewPointer(p.MustNamed("message"))
+		reset := p.MethodOf(msgPT, "reset")
+		if reset == nil {
+			fatalf("anchor=message.reset not found")
+		}
+		envComprF := p.MustField("envelope", "compressed")
+		cliReqComprF := p.MustField("clientProtocolDetails", "reqCompression")
+		n := 0
+		for _, e := range p.Callers(reset) {
+			if e.Kind != "static" || !p.inScope(e.Caller) {
+				continue
+			}
+			args := e.Site.Common().Args
+			if len(args) != 4 {
+				continue
+			}
+			isReq, isK := ConstBool(args[2])
+			if !isK || !isReq {
+				continue
+			}
+			n++
+			var why []string
+			var okFlag func(v ssa.Value, depth int) bool
+			okFlag = func(v ssa.Value, depth int) bool {
+				if depth > 4 {
+					why = append(why, "too deep")
+					return false
+				}
+				switch x := v.(type) {
+				case *ssa.BinOp:
+					if (x.Op == token.NEQ) && IsNilConst(x.Y) && LoadedField(x.X) == cliReqComprF {
+						return true
+					}
+					why = append(why, "a comparison that is not 'client request compression != nil'")
+					return false
+				case *ssa.Field:
+					if FieldOfVal(x) == envComprF {
+						return true
+					}
+				case *ssa.UnOp:
+					if x.Op == token.MUL {
+						if fa, ok := x.X.(*ssa.FieldAddr); ok && FieldOfAddr(fa) == envComprF {
+							return true
+						}
+					}
+				case *ssa.Phi:
+					for _, ed := range x.Edges {
+						if !okFlag(ed, depth+1) {
+							return false
+						}
+					}
+					return len(x.Edges) > 0
+				case *ssa.Parameter:
+					return true // judged where the helper is called
+				case *ssa.Extract:
+					call, ok := x.Tuple.(*ssa.Call)
+					if !ok {
+						break
+					}
+					cal := call.Call.StaticCallee()
+					if cal == nil || !p.inScope(cal) || len(cal.Blocks) == 0 {
+						break
+					}
+					ei := errorResultIndex(cal.Signature)
+					all, nRet := true, 0
+					ForEachInstr(cal, func(in ssa.Instruction) {
+						ret, isRet := in.(*ssa.Return)
+						if !isRet || ret.Block() == cal.Recover {
+							return
+						}
+						rv := ReturnValues(ret)
+						if ei >= 0 && ei < len(rv) && !IsNilConst(rv[ei]) {
+							return // error return: the flag is not used
+						}
+						nRet++
+						if x.Index >= len(rv) || !okFlag(rv[x.Index], depth+1) {
+							all = false
+						}
+					})
+					return all && nRet > 0
+				case *ssa.Const:
+					why = append(why, "a constant")
+					return false
+				}
+				why = append(why, "of unrecognised origin")
+				return false
+			}
+			good := okFlag(args[3], 0)
+			c.Check(good, "C02.10", FuncName(e.Caller), "request-message-compressed-flag", e.Site.Pos(),
+				"the flag derives from the message's envelope or from the client's declared request compression",
+				"a request message is (re)initialised with a compressed flag that is "+joinStr(uniq(why))+": when the client declared a compression the target's headers announce it, but this message is forwarded uncompressed (e.g. the POST a GET falls back to)")
+		}
+		if n == 0 {
+			c.Bad("C02.10", FuncName(reset), "request-message-compressed-flag", reset.Pos(), "no (re)initialisation of a request message found: shape changed")
+		}
+	}
+
 	// ---------------------------------------------------------------- C02.9
 	c.Rule("C02.9", "request-side adapters read only the request direction's compression cells", 5)
 	checkDirectionCells(c, "C02.9", false)
